@@ -57,12 +57,23 @@ def build(template, ops, operands, neg_at=None):
     return toks
 
 
-def text_of(toks, spaced=True):
+def text_of(toks, spaced=True, braces=None):
+    """braces: an rng - some matching pairs of parentheses are written as curly braces (inside an expression they
+    mean the same)."""
+    words = [t['text'] for t in toks]
+    if braces is not None:
+        stack = []
+        for idx, word in enumerate(words):
+            if word == '(':
+                stack.append(idx)
+            elif word == ')' and stack:
+                start = stack.pop()
+                if braces.random() < 0.25:
+                    words[start], words[idx] = '{', '}'
     if spaced:
-        return ' '.join(t['text'] for t in toks)
+        return ' '.join(words)
     out = ''
-    for t in toks:
-        word = t['text']
+    for word in words:
         if word in ('and', 'or'):
             out += ' ' + word + ' '
         elif word == '%':
@@ -275,7 +286,7 @@ def run(report, replay=None):
             if pos == 'reg' and v['k'] != 'num':
                 continue
             spaced = not (tier == 'thorough' and rng.random() < 0.3)
-            placed.append((len(placed), i, pos, text_of(toks, spaced)))
+            placed.append((len(placed), i, pos, text_of(toks, spaced, rng)))
     for pos0 in range(0, len(placed), 60):
         chunk = placed[pos0:pos0 + 60]
         script = PRELUDE + '\n'.join(statement(pos, text, rid) for rid, _, pos, text in chunk) + '\nprint "#end"\n'
